@@ -853,7 +853,9 @@ def do_hist(case, R):
     if degen:
         R.count('hist:rewind_onto_previous_stamp')
     if bad:
-        R.fail('history-zero-span-after-rewind' if degen else 'delay-time-interpolation-index',
+        has_rew = any(b < a and b != 0 for a, b in zip(ts, ts[1:]))
+        R.fail('history-zero-span-after-rewind' if degen else 'delay-time-interpolation-index' if not has_rew else
+               'delay-time-window-trimmed-by-rejected-step',
                'Delay(mode=time) raised while interpolating (idx = -1)')
         return
     # ---- oracle: the documented semantics on an unbounded reference history
@@ -918,7 +920,9 @@ def do_hist(case, R):
                     R.fail('average-wrong-output', 'Average(step, %d): output %r, expected %r at call %d' % (case['delay'], v, want, j))
                     break
     if zero_span:
-        R.fail('history-zero-span-after-rewind' if degen else 'history-non-finite-output',
+        has_rew = any(b < a and b != 0 for a, b in zip(ts, ts[1:]))
+        R.fail('history-zero-span-after-rewind' if degen else
+               'delay-time-window-trimmed-by-rejected-step' if (has_rew and kind in ('dtime', 'avgt')) else 'history-non-finite-output',
                '%s returned a non-finite value: a rewind exactly onto the previous stamp leaves two equal stamps in the buffer' % kind)
 
 
